@@ -18,6 +18,7 @@ static bool           reap_exit = false;
 static bool           reap_empty;
 static nni_mtx        reap_mtx;
 static nni_cv         reap_work_cv;
+static bool           reap_inited = false;
 static nni_cv         reap_empty_cv;
 
 static void
@@ -94,6 +95,10 @@ bool
 nni_reap_sys_drain(void)
 {
 	bool result = false;
+	if (!reap_inited) {
+		// (initialisation failed before we were set up)
+		return (false);
+	}
 	nni_mtx_lock(&reap_mtx);
 	while (!reap_empty) {
 		result = true;
@@ -118,12 +123,17 @@ nni_reap_sys_init(void)
 		return (rv);
 	}
 	nni_thr_run(&reap_thr);
+	reap_inited = true;
 	return (0);
 }
 
 void
 nni_reap_sys_fini(void)
 {
+	if (!reap_inited) {
+		return;
+	}
+	reap_inited = false;
 	nni_mtx_lock(&reap_mtx);
 	reap_exit = true;
 	nni_cv_wake1(&reap_work_cv);
